@@ -337,6 +337,8 @@ func (e *Engine) runHarness(name string) *HarnessResult {
 			res.Solver.Errors += s.Errors
 			res.Solver.Time += s.Time
 			res.Solver.Restarts += s.Restarts
+			res.Solver.ValuesTime += s.ValuesTime
+			res.Solver.ValuesCalls += s.ValuesCalls
 			if s.MaxQuery > res.Solver.MaxQuery {
 				res.Solver.MaxQuery = s.MaxQuery
 			}
